@@ -199,30 +199,37 @@ func (ge *gen) ecdsaHighX(sub int, oracle bool) Case {
 
 // refRecover: SEC1 §4.1.6 public-key recovery as libsecp256k1's secp256k1_ecdsa_recover does it.
 // recid bit 1: x(R) = r + n (refused when that is not below p); bit 0: parity of y(R).
-// ok=false: no key. Q=nil with ok=true: the result is the point at infinity.
+// ok=false: no key — including the case that the recovered point s*R - m*G is the point at infinity
+// (SEC1 4.1.6 yields candidate public keys, and the point at infinity is not a public key;
+// secp256k1_ecdsa_sig_recover returns 0), which is reported through atInfinity.
 func refRecover(r, s, m *big.Int, recid int) (Q *pt, ok bool) {
+	Q, ok, _ = refRecoverInf(r, s, m, recid)
+	return
+}
+
+func refRecoverInf(r, s, m *big.Int, recid int) (Q *pt, ok bool, atInfinity bool) {
 	if r.Sign() <= 0 || s.Sign() <= 0 || r.Cmp(refN) >= 0 || s.Cmp(refN) >= 0 {
-		return nil, false
+		return nil, false, false
 	}
 	x := new(big.Int).Set(r)
 	if recid&2 != 0 {
 		x.Add(x, refN)
 		if x.Cmp(refP) >= 0 {
-			return nil, false
+			return nil, false, false
 		}
 	}
 	R := refLiftX(x)
 	if R == nil {
-		return nil, false
+		return nil, false, false
 	}
 	if recid&1 != 0 {
 		R = refNeg(R)
 	}
 	T := refAdd(refMul(s, R), refNeg(refMul(new(big.Int).Mod(m, refN), refG())))
 	if T == nil {
-		return nil, true
+		return nil, false, true
 	}
-	return refMul(new(big.Int).ModInverse(r, refN), T), true
+	return refMul(new(big.Int).ModInverse(r, refN), T), true, false
 }
 
 // recov draws a case for the op "recov": r s msg recid(1 byte).
@@ -248,6 +255,38 @@ func (ge *gen) recov(oracle bool) Case {
 			b = []byte{0}
 		}
 		return b
+	}
+	if g.Intn(9) == 0 {
+		// recovered point AT INFINITY: R = k*G chosen with its logarithm, message value m = s*k, so that
+		// s*R - m*G = 0. Nothing is a public key here: nil expected (the pinned snapshot returned a key object
+		// with Infinity set and left-over coordinates). Siblings: the other parity (s*(-R) - m*G = -2m*G, a
+		// finite key that must verify) and the neighbouring message m+1.
+		k := ge.scalar()
+		Rk := refMul(k, refG())
+		rk := new(big.Int).Mod(Rk.x, refN)
+		if rk.Sign() != 0 {
+			id := int(Rk.y.Bit(0))
+			if Rk.x.Cmp(refN) >= 0 {
+				id |= 2
+			}
+			m := new(big.Int).Mul(s, k)
+			m.Mod(m, refN)
+			switch g.Intn(4) {
+			case 0:
+				return mk("recov", "infinity-other-parity", oracle, rb(rk), rb(s), be32(m), []byte{byte(id ^ 1)})
+			case 1:
+				m.Add(m, big1)
+				m.Mod(m, refN)
+				return mk("recov", "infinity-neighbour", oracle, rb(rk), rb(s), be32(m), []byte{byte(id)})
+			case 2: // the same message value offered unreduced (m + n) when it fits in 32 bytes, else as it is
+				if mn := new(big.Int).Add(m, refN); mn.BitLen() <= 256 {
+					m = mn
+				}
+				return mk("recov", "infinity", oracle, rb(rk), rb(s), be32(m), []byte{byte(id)})
+			default:
+				return mk("recov", "infinity", oracle, rb(rk), rb(s), be32(m), []byte{byte(id)})
+			}
+		}
 	}
 	switch g.Intn(10) {
 	case 0: // the other x candidate: r+n instead of r (mostly >= p or a different point), or r instead of r+n
@@ -294,7 +333,7 @@ func (x *ctx) runRecov(c Case, a [][]byte, o *vlib.Oracle, useOracle bool, key s
 		x.prop(c, "RecoverPublicKey panicked: "+p)
 		return
 	}
-	Q, ok := refRecover(&bs.R.Int, &bs.S.Int, new(big.Int).SetBytes(a[2]), recid)
+	Q, ok, atInf := refRecoverInf(&bs.R.Int, &bs.S.Int, new(big.Int).SetBytes(a[2]), recid)
 	r.Hit(fmt.Sprintf("recov recid=%d real=%s ref=%s", recid, boolStr(k != nil), boolStr(ok)))
 	realS := "none"
 	if k != nil {
@@ -305,10 +344,14 @@ func (x *ctx) runRecov(c Case, a [][]byte, o *vlib.Oracle, useOracle bool, key s
 		k.Y.GetB32(yb[:])
 		realS = "ok " + hex.EncodeToString(xb[:]) + " " + hex.EncodeToString(yb[:])
 	}
-	if ok && Q == nil {
-		// result at infinity (needs s*R = m*G: a discrete logarithm) — the Go code leaves its output unset
-		r.Hit("recov infinity")
-		return
+	if atInf {
+		// recovered point at infinity (s*R = m*G; constructible by choosing R = k*G, m = s*k — class
+		// recov/infinity): there is no key, nil expected. Judged like every other case, below.
+		r.Hit("recov result-at-infinity real-nil=" + boolStr(k == nil))
+		if k != nil {
+			x.prop(c, fmt.Sprintf("RecoverPublicKey returns a key object (Infinity=%v, coordinates %s) although the recovered point s*R - m*G is the point at infinity: no public key exists for this (r, s, hash, recid)", k.Infinity, realS))
+			return
+		}
 	}
 	refS := "none"
 	if ok {
